@@ -304,7 +304,7 @@ vp_remove_te(&mut headers);
 //@@ contract
     ensures
         res matches Ok(r) ==> ({ // id: status_and_fields_as_sent_transfer_encoding_hidden [C04,C19]
-            let w = stream_wire(&reader); let n = until_len(w, 16384, 10u8);
+            let w = stream_wire(&reader); let n = until_len(w, HEAD_LINE_MAX, 10u8);
             let hd = rest(w.skip(n), Seq::empty(), request.sp_settings().max_headers as nat);
             &&& status_spec(line_of(w, n)) == Some(status_u16(r.sp_status()))
             &&& hd is Some
@@ -312,7 +312,7 @@ vp_remove_te(&mut headers);
                     && hm_view(&r.sp_headers()) == without(hm_view(&h0), te_name())
         }),
         res matches Ok(r) ==> ({ // id: body_framed_by_rfc9112_rules [C01,C03]
-            let w = stream_wire(&reader); let n = until_len(w, 16384, 10u8);
+            let w = stream_wire(&reader); let n = until_len(w, HEAD_LINE_MAX, 10u8);
             let hd = rest(w.skip(n), Seq::empty(), request.sp_settings().max_headers as nat);
             &&& hd is Some
             &&& exists|h0: HeaderMap| hm_bytes(&h0) == hd.unwrap().0
@@ -320,7 +320,7 @@ vp_remove_te(&mut headers);
             &&& r.sp_body().inv()
         }),
         res matches Ok(r) ==> ({ // id: decoder_chosen_by_declared_coding [C06]
-            let w = stream_wire(&reader); let n = until_len(w, 16384, 10u8);
+            let w = stream_wire(&reader); let n = until_len(w, HEAD_LINE_MAX, 10u8);
             let hd = rest(w.skip(n), Seq::empty(), request.sp_settings().max_headers as nat);
             &&& hd is Some
             &&& exists|h0: HeaderMap| hm_bytes(&h0) == hd.unwrap().0
